@@ -727,6 +727,7 @@ def _parse_exec(ctx, sizes):
         return None, "try_from_bits(bits, width): unexpected parameters"
     catalogue = [{"__adt__": SS, "__variant__": v} for v in t["variants"]]
     n = 0
+    over = None
     n_tests = 0
     for v in (sizes or t["variants"]):
         su = t["setup"].get(v)
@@ -775,8 +776,9 @@ def _parse_exec(ctx, sizes):
         miss = sorted(set(fixed) - set(req))
         extra = sorted(set(req) - set(fixed))
         wrong = sorted(i for i in req if i in fixed and req[i] != fixed[i])
-        if miss:
-            return False, "%s: pixel (%d, %d), a fixed %s module, is not tested: an array deviating there is accepted (%d untested)" % (v, miss[0] // W, miss[0] % W, fixed[miss[0]], len(miss))
+        if miss and over is None:
+            # accepts too much: recorded, the remaining judgements (which concern arrays that ARE renderings) go on
+            over = "%s: pixel (%d, %d), a fixed %s module, is not tested: an array deviating there is accepted (%d untested)" % (v, miss[0] // W, miss[0] % W, fixed[miss[0]], len(miss))
         if wrong:
             return False, "%s: pixel (%d, %d) must be %s to be accepted, the geometry says %s" % (v, wrong[0] // W, wrong[0] % W, req[wrong[0]], fixed[wrong[0]])
         if extra:
@@ -792,7 +794,27 @@ def _parse_exec(ctx, sizes):
         if got != exp:
             return False, "%s: map fields / size are %r, expected %r" % (v, got, exp)
         n += 1
+    if over is not None:
+        return False, OVER + over
     return True, "%d symbol sizes: an array is accepted iff all %d fixed modules have the geometry's value; the content is the remaining pixels in order" % (n, n_tests)
+
+
+OVER = "over-acceptance: "
+
+
+def parse_accepts(ctx):
+    """PARSE-ACC: the half of PARSE-INV the round trip needs: every rendering is accepted (no fixed module is required to have
+    another value than the geometry's, no content pixel is constrained), nothing traps, and the parsed content is the content
+    pixels in order with the right size.  That arrays which are not renderings are refused is not judged here."""
+    r = "PARSE-ACC"
+    f = ctx.facts()
+    ok, det = parse_exec(ctx)
+    site = T.span_str(f.thir[FN]["span"]) if FN in f.thir else None
+    if ok is None:
+        return [Ob(r, "accepts-renderings", False, "cannot decide: " + str(det), site=site)]
+    if ok is False and str(det).startswith(OVER):
+        return [Ob(r, "accepts-renderings", True, "every rendering is accepted and parsed to its content (not judged here: " + str(det)[len(OVER):] + ")", site=site)]
+    return [Ob(r, "accepts-renderings", bool(ok), str(det), site=site)]
 
 
 def parse_inv(ctx):
